@@ -22,7 +22,7 @@ namespace Fsel.C19
 open Fsel
 
 /-- the member loop as a plain fold -/
-def foldMembers (p : Plan) (e : Entry) : WSt → List ArcInfo → Except Abort WSt
+def foldMembers (p : Plan) (e : Entry) : ResSt → List ArcInfo → Except Abort ResSt
   | st, [] => .ok st
   | st, a :: as =>
     match checkFile p st { e with arc := some a } with
@@ -30,10 +30,10 @@ def foldMembers (p : Plan) (e : Entry) : WSt → List ArcInfo → Except Abort W
     | .ok st' => foldMembers p e st' as
 
 /-- no streamed LIMIT ⇒ every member is checked exactly once, in table order -/
-theorem members_each_once (p : Plan) (e : Entry) (ms : List ArcInfo) (st : WSt)
+theorem members_each_once (p : Plan) (e : Entry) (ms : List ArcInfo) (st : ResSt)
     (h : p.q.isBuffered = true ∨ p.q.limit = 0) :
     checkMembers p st e ms = foldMembers p e st ms := by
-  have hl : ∀ s : WSt, limitReached p s = false := by
+  have hl : ∀ s : ResSt, limitReached p s = false := by
     intro s
     unfold limitReached
     rcases h with h | h
@@ -48,7 +48,7 @@ theorem members_each_once (p : Plan) (e : Entry) (ms : List ArcInfo) (st : WSt)
     | ok st' => exact ih st'
 
 /-- a streamed LIMIT stops the loop exactly when it is reached -/
-theorem members_limit_prefix (p : Plan) (e : Entry) (a : ArcInfo) (as : List ArcInfo) (st : WSt) :
+theorem members_limit_prefix (p : Plan) (e : Entry) (a : ArcInfo) (as : List ArcInfo) (st : ResSt) :
     checkMembers p st e (a :: as) =
       if limitReached p st then .ok st
       else match checkFile p st { e with arc := some a } with
